@@ -38,19 +38,29 @@ struct Request {
   bool msgbuf;
 };
 
+using Fn = int (*)(mfront_gb_BehaviourData&, const int, const tfel::material::OutOfBoundsPolicy);
+
+// The 32 instantiations of mfront::gb::integrate<Mock<Flags, FS>> are compiled in two translation units
+// (-DC39_PART=0: FS = false, -DC39_PART=1: FS = true) so that they can be built in parallel.
+extern const std::array<Fn, 16> c39_table_0;
+extern const std::array<Fn, 16> c39_table_1;
+
+#ifdef C39_PART
 template <unsigned Flags, bool FS>
 static int call(mfront_gb_BehaviourData& d, const int smflag, const tfel::material::OutOfBoundsPolicy p) {
   using B = Mock<Flags, FS>;
   return mfront::gb::integrate<B>(d, static_cast<typename B::SMFlag>(smflag), p);
 }
-
-using Fn = int (*)(mfront_gb_BehaviourData&, const int, const tfel::material::OutOfBoundsPolicy);
-
-template <std::size_t... I>
-static std::array<Fn, 32> make_table(std::index_sequence<I...>) {
-  return {{(&call<(I % 16), (I >= 16)>)...}};
+template <bool FS, std::size_t... I>
+static std::array<Fn, 16> make_table(std::index_sequence<I...>) {
+  return {{(&call<I, FS>)...}};
 }
-static const std::array<Fn, 32> table = make_table(std::make_index_sequence<32>{});
+#if C39_PART == 0
+const std::array<Fn, 16> c39_table_0 = make_table<false>(std::make_index_sequence<16>{});
+#else
+const std::array<Fn, 16> c39_table_1 = make_table<true>(std::make_index_sequence<16>{});
+#endif
+#else /* C39_PART */
 
 static std::string canon_msg(const char* const m) {
   const std::string s(m);
@@ -151,7 +161,7 @@ static std::string integrate_request(std::istringstream& is) {
   int ret = -99;
   std::string escaped;
   try {
-    ret = table[rq.flags + (rq.fs ? 16 : 0)](d, rq.smflag, p);
+    ret = (rq.fs ? c39_table_1 : c39_table_0)[rq.flags](d, rq.smflag, p);
   } catch (...) {
     escaped = "escaped-exception";
   }
@@ -261,3 +271,4 @@ int main() {
   }
   return 0;
 }
+#endif /* C39_PART */
